@@ -65,6 +65,7 @@ pub fn generate(seed: u64, tier: Tier) -> HttpPlan {
             sndbuf: if rng.below(3) == 0 { Some(*rng.pick(&[4608, 9216, 65536])) } else { None },
             think_ns: rng.below(2) * rng.below(5 * MS),
             linger_ns: 0,
+            give_up_ns: 0,
         });
     }
     for cl in 0..nclusters {
@@ -110,6 +111,7 @@ pub fn generate(seed: u64, tier: Tier) -> HttpPlan {
         clients,
         sndbufs: if rng.below(2) == 0 { Some(vec![0, 4608, 9216, 32768]) } else { None },
         settle_ns: 0,
+        extra_frontends: vec![],
     }
 }
 
@@ -151,13 +153,17 @@ pub fn trigger(p: &HttpPlan, ci: usize, ri: usize) -> &'static str {
 }
 
 /// The C01 oracle over a fault-free (peer-wise) HTTP outcome.
-pub fn oracle(p: &HttpPlan, o: &HttpOutcome) -> Vec<Violation> {
+pub fn oracle(p: &HttpPlan, o: &HttpOutcome) -> Vec<Violation> { oracle_filtered(p, o, &|_, _| false) }
+
+/// `skip(ci, ri)`: requests the caller judges itself (e.g. the victim of an injected fault)
+pub fn oracle_filtered(p: &HttpPlan, o: &HttpOutcome, skip: &dyn Fn(usize, usize) -> bool) -> Vec<Violation> {
     let mut v = Vec::new();
     if let Some(pn) = &o.panicked { v.push(Violation::new("panic", "worker", pn.clone())); }
     if let Some(a) = &o.aborted { v.push(Violation::new("no_exit", a.clone(), format!("run aborted: {a}"))); }
     for (ci, c) in p.clients.iter().enumerate() {
         let oc = &o.clients[ci];
         for (ri, r) in c.requests.iter().enumerate() {
+            if skip(ci, ri) { continue; }
             let cl: usize = r.host[1..2].parse().unwrap();
             let spec = &p.clusters[cl].backends[0].0.responses[&r.id];
             let want_len = if r.method == "HEAD" || spec.status == 204 || spec.status == 304 { 0 } else { spec.body.len() as u64 };
@@ -214,7 +220,7 @@ pub fn oracle(p: &HttpPlan, o: &HttpOutcome) -> Vec<Violation> {
             }
             if seen > 1 { v.push(Violation::new("body_mismatch", k("request_replayed"), format!("request #{} reached the backend {seen} times", r.id))); }
         }
-        if oc.responses.len() > c.requests.len() { v.push(Violation::new("two_answers", "extra_response", format!("client {} got {} responses for {} requests", c.name, oc.responses.len(), c.requests.len()))); }
+        if oc.responses.len() > c.requests.len() && !(0..c.requests.len()).any(|ri| skip(ci, ri)) { v.push(Violation::new("two_answers", "extra_response", format!("client {} got {} responses for {} requests", c.name, oc.responses.len(), c.requests.len()))); }
         if let Some(e) = &oc.rec.parse_error { v.push(Violation::new("malformed_response", "client_parse", format!("client {}: {e}", c.name))); }
     }
     v
